@@ -29,6 +29,7 @@ type Solver struct {
 	out     *bufio.Reader
 	Queries int
 	Seconds float64
+	MaxSeconds float64
 	Errors  []string
 	Log     io.Writer // optional transcript
 	depth   int
@@ -191,7 +192,14 @@ func (s *Solver) readLine() (string, error) {
 // Check runs (check-sat) under the current assertions plus the extra (temporary) ones.
 func (s *Solver) Check(st *Store, extra ...*Term) Result {
 	t0 := time.Now()
-	defer func() { s.Seconds += time.Since(t0).Seconds(); s.Queries++ }()
+	defer func() {
+		d := time.Since(t0).Seconds()
+		s.Seconds += d
+		if d > s.MaxSeconds {
+			s.MaxSeconds = d
+		}
+		s.Queries++
+	}()
 	if len(extra) > 0 {
 		s.Push()
 		for _, e := range extra {
@@ -207,7 +215,14 @@ func (s *Solver) Check(st *Store, extra ...*Term) Result {
 // the caller must Pop().
 func (s *Solver) CheckKeep(st *Store, extra ...*Term) Result {
 	t0 := time.Now()
-	defer func() { s.Seconds += time.Since(t0).Seconds(); s.Queries++ }()
+	defer func() {
+		d := time.Since(t0).Seconds()
+		s.Seconds += d
+		if d > s.MaxSeconds {
+			s.MaxSeconds = d
+		}
+		s.Queries++
+	}()
 	s.Push()
 	for _, e := range extra {
 		s.Assert(st, e)
